@@ -114,3 +114,43 @@ func VerifTwinInstr() {
 	vAssert("same-interrupts", a.intr.ReadIE() == b.intr.ReadIE() && a.intr.ReadIF() == b.intr.ReadIF() && a.intr.Enabled() == b.intr.Enabled())
 	vReach("end")
 }
+
+// C25: the HALT wake-up / interrupt dispatch sequences are per instance too: the later-created (or the earlier-created)
+// instance leaves HALT or dispatches while the other one is untouched
+func VerifTwoInstancesWake() {
+	var a, b *verifMachine
+	if vCfg("order") == 0 {
+		a = newVerifMachine()
+		b = newVerifMachine()
+	} else {
+		b = newVerifMachine()
+		a = newVerifMachine()
+	}
+	a.havocNamed("a.")
+	b.havocNamed("b.")
+	if vCfg("halted") != 0 {
+		a.enterHalted()
+	}
+	pend := a.intr.ReadIE() & a.intr.ReadIF() & 0x1f
+	vAssume(pend != 0)
+	ime := a.imeAtBoundary()
+	if vCfg("halted") == 0 {
+		vAssume(ime) // not halted: the dispatch case (an ordinary instruction is VerifTwoInstances' subject)
+	}
+	pre := *a.c
+	bc := *b.c
+	bie, bif, bime := b.intr.ReadIE(), b.intr.ReadIF(), b.intr.Enabled()
+	probe := vU16("probe")
+	bmem := b.mp.Mem[probe]
+	n := a.runToBoundary(9)
+	o := b.c
+	vAssert("other-registers", o.a == bc.a && o.f == bc.f && o.b == bc.b && o.c == bc.c && o.d == bc.d && o.e == bc.e && o.h == bc.h && o.l == bc.l && o.sp == bc.sp && o.pc == bc.pc)
+	vAssert("other-memory", b.mp.Mem[probe] == bmem && b.mp.LogN == 0)
+	vAssert("other-interrupts", b.intr.ReadIE() == bie && b.intr.ReadIF() == bif && b.intr.Enabled() == bime)
+	if ime {
+		vAssert("own-dispatch", a.c.sp == pre.sp-2 && !a.intr.Enabled() && a.c.pc == 0x40+8*uint16(ctz5(pend)))
+	} else if vCfg("halted") != 0 {
+		vAssert("own-wake", n == 1 && !a.c.halted && a.c.sp == pre.sp && a.c.pc == pre.pc)
+	}
+	vReach("end")
+}
